@@ -19,6 +19,13 @@
 #   include <cds/container/rwqueue.h>
 #   include <cds/container/fcqueue.h>
 #   include <list>
+#elif FAMILY == 5
+#   include <cds/intrusive/msqueue.h>
+#   include <cds/intrusive/moir_queue.h>
+#   include <cds/intrusive/basket_queue.h>
+#   include <cds/intrusive/optimistic_queue.h>
+#   include <cds/intrusive/fcqueue.h>
+#   include <boost/intrusive/list.hpp>
 #endif
 
 using namespace vh;
@@ -87,14 +94,14 @@ struct QueueAdapter
 std::vector<Scenario> g_scen;
 
 // step: every step-th grammar program is in the quick tier, the others are thorough-only; bq/bt: preemption bounds
-template <class Q, class Smr, bool HasStat = false>
-void add_family( std::string const& tname, int step, int bq = 2, int bt = 3, int bq3 = 2, int bt3 = 2, int flip = 0 )
+template <class Ad, class Smr>
+void add_family_ad( std::string const& tname, int step, int bq = 2, int bt = 3, int bq3 = 2, int bt3 = 2, int flip = 0 )
 {
     std::string base = tname + "/" + Smr::name() + ( flip ? "/flip" : "" );
     if ( vh::property() == "C20" ) {
         // single-threaded conformance with std::deque: all sequences over {enqueue odd (lvalue), enqueue even (rvalue), dequeue, empty, clear}
         std::vector<POp> alpha = { { ENQ, 1, 0 }, { ENQ, 2, 0 }, { DEQ, 0, 0 }, { EMPTY, 0, 0 }, { CLEAR, 0, 0 } };
-        add_seq_generic<QueueAdapter<Q, Smr, HasStat>, QCfg>( g_scen, base, QCfg{ 1, flip }, alpha, { TProg(), { { ENQ, 7, 0 }, { ENQ, 8, 0 }, { ENQ, 9, 0 } } }, 5, 7 );
+        add_seq_generic<Ad, QCfg>( g_scen, base, QCfg{ 1, flip }, alpha, { TProg(), { { ENQ, 7, 0 }, { ENQ, 8, 0 }, { ENQ, 9, 0 } } }, 5, 7 );
         return;
     }
     // grammar: every 2-thread program with 1..2 operations per thread over {enq, deq} on prefixes [], [x], [x,y]
@@ -106,22 +113,100 @@ void add_family( std::string const& tname, int step, int bq = 2, int bt = 3, int
     for ( auto& p : progs ) { long v = 1; for ( auto& t : p.threads ) for ( auto& o : t ) if ( o.op == ENQ ) o.a = v++; }
     int n = 0;
     for ( auto const& p : progs )
-        g_scen.push_back( make_scenario<QueueAdapter<Q, Smr, HasStat>>( base, p, QCfg{ 2, flip }, ( n++ % step ) == 0 ? 0 : 1, bq, bt ));
+        g_scen.push_back( make_scenario<Ad>( base, p, QCfg{ 2, flip }, ( n++ % step ) == 0 ? 0 : 1, bq, bt ));
     // curated 3-thread programs
     std::vector<Program> cur;
     { Program p; p.name = "2enq-1deq"; p.threads = { { { ENQ, 1, 0 } }, { { ENQ, 2, 0 } }, { { DEQ, 0, 0 }, { DEQ, 0, 0 } } }; cur.push_back( p ); }
     { Program p; p.name = "enq-deq-deq"; p.prefix = { { ENQ, 91, 0 } }; p.threads = { { { ENQ, 1, 0 } }, { { DEQ, 0, 0 } }, { { DEQ, 0, 0 } } }; cur.push_back( p ); }
     { Program p; p.name = "deq3-on-2"; p.prefix = { { ENQ, 91, 0 }, { ENQ, 92, 0 } }; p.threads = { { { DEQ, 0, 0 } }, { { DEQ, 0, 0 } }, { { DEQ, 0, 0 }, { ENQ, 1, 0 } } }; cur.push_back( p ); }
     for ( auto const& p : cur )
-        g_scen.push_back( make_scenario<QueueAdapter<Q, Smr, HasStat>>( base, p, QCfg{ 3, flip }, step == 1 ? 0 : 1, bq3, bt3 ));
+        g_scen.push_back( make_scenario<Ad>( base, p, QCfg{ 3, flip }, step == 1 ? 0 : 1, bq3, bt3 ));
     // deeper 2-thread programs (3 operations each), thorough tier
     {
         Program p; p.name = "deep-eed-dde"; p.threads = { { { ENQ, 1, 0 }, { ENQ, 2, 0 }, { DEQ, 0, 0 } }, { { DEQ, 0, 0 }, { DEQ, 0, 0 }, { ENQ, 3, 0 } } };
-        g_scen.push_back( make_scenario<QueueAdapter<Q, Smr, HasStat>>( base, p, QCfg{ 2, flip }, 1, bq, bt ));
+        g_scen.push_back( make_scenario<Ad>( base, p, QCfg{ 2, flip }, 1, bq, bt ));
         Program p2; p2.name = "deep-ede-ded"; p2.prefix = { { ENQ, 91, 0 } }; p2.threads = { { { ENQ, 1, 0 }, { DEQ, 0, 0 }, { ENQ, 2, 0 } }, { { DEQ, 0, 0 }, { ENQ, 3, 0 }, { DEQ, 0, 0 } } };
-        g_scen.push_back( make_scenario<QueueAdapter<Q, Smr, HasStat>>( base, p2, QCfg{ 2, flip }, 1, bq, bt ));
+        g_scen.push_back( make_scenario<Ad>( base, p2, QCfg{ 2, flip }, 1, bq, bt ));
     }
 }
+
+template <class Q, class Smr, bool HasStat = false>
+void add_family( std::string const& tname, int step, int bq = 2, int bt = 3, int bq3 = 2, int bt3 = 2, int flip = 0 )
+{
+    add_family_ad<QueueAdapter<Q, Smr, HasStat>, Smr>( tname, step, bq, bt, bq3, bt3, flip );
+}
+
+#if FAMILY == 5
+// ---- intrusive queues: the harness owns the items; the queue links them and calls the disposer ---------------------------------
+// A dequeued item may still serve as the queue's dummy node (MSQueue family): it may be reused only after the disposer was called
+// for it. The harness never reuses items inside an execution; the disposer reports the item to the engine, so every later access
+// of the library to it is a violation; at the end every enqueued item must have been disposed exactly once.
+struct IQArena {
+    struct Ent { void* p; int* disposed; long v; void (*del)( void* ); };
+    std::vector<Ent> all;
+    void reset() { cds_verif::regions_reset(); for ( auto& e : all ) e.del( e.p ); all.clear(); }
+    static IQArena& get() { static IQArena a; return a; }
+};
+std::string g_iq_err;
+struct iq_disposer {
+    template <class T> void operator()( T* p ) const
+    {
+        if ( ++p->disposed > 1 ) { g_iq_err = "the disposer is called a second time for the item with value " + std::to_string( p->v ); if ( cds_verif::active()) vh::fail_mid( "C06:disposed-twice", g_iq_err ); }
+        cds_verif::region_freed( static_cast<void*>( p ), sizeof( T ), "queue item handed to the disposer" );
+    }
+};
+template <class Hook> struct QItem: Hook { long v; int disposed = 0; explicit QItem( long x ): v( x ) {} };
+
+template <class Q, class Smr, bool FC = false>
+struct IQueueAdapter
+{
+    typedef typename Q::value_type item;
+    QCfg cfg; std::unique_ptr<Smr> smr; std::unique_ptr<Q> q;
+    explicit IQueueAdapter( QCfg c ): cfg( c ) {}
+    static const char* property() { return vh::property() == "C20" ? "C20" : "C06"; }
+    void setup() { IQArena::get().reset(); g_iq_err.clear(); smr.reset( new Smr( cfg.nthreads + 1 )); attach(); q.reset( new Q ); }
+    void teardown() { q.reset(); detach(); smr.reset(); }
+    void thread_begin( int ) { attach(); }
+    void thread_end( int ) { exit_hook( std::integral_constant<bool, FC>()); detach(); }
+    void exit_hook( std::true_type ) { q->m_FlatCombining.m_pThreadRec.reset(); }
+    void exit_hook( std::false_type ) {}
+    void apply( int t, History& h, POp const& op )
+    {
+        switch ( op.op ) {
+        case ENQ: {
+            int i = h.call( t, ENQ, op.a );
+            item* p = new item( op.a );
+            IQArena::get().all.push_back( IQArena::Ent{ p, &p->disposed, op.a, []( void* x ) { delete static_cast<item*>( x ); } } );
+            bool ok = q->enqueue( *p ); h.ret( i, ok ); break;
+        }
+        case DEQ: {
+            int i = h.call( t, DEQ ); item* p = q->dequeue();
+            if ( p && p->disposed ) { g_iq_err = "dequeue() returned an item that has already been disposed"; }
+            h.ret( i, p != nullptr, p ? p->v : 0 ); break;
+        }
+        case EMPTY: { int i = h.call( t, EMPTY ); h.ret( i, q->empty() ? 1 : 0 ); break; }
+        case CLEAR: { int i = h.call( t, CLEAR ); q->clear(); h.ret( i, 1 ); break; }
+        default: break;
+        }
+    }
+    void drain( History& h )
+    {
+        for ( int n = 0; n < 64; ++n ) { int i = h.call( -1, DEQ ); item* p = q->dequeue(); h.ret( i, p != nullptr, p ? p->v : 0 ); if ( !p ) break; }
+        int i = h.call( -1, EMPTY ); h.ret( i, q->empty());
+    }
+    std::string q_err;
+    void quiescent( Result&, History const& ) { q_err = g_iq_err; }
+    void post_check( Result& r, History const& )
+    {
+        if ( !g_iq_err.empty()) { r.fail( "C06:disposer", g_iq_err ); return; }
+        if ( FC ) return;       // FCQueue never disposes dequeued items (the caller owns them), only clear( true ) does
+        // after the queue and the SMR are gone: every item that went through the queue has been disposed exactly once
+        for ( auto const& e : IQArena::get().all )
+            if ( *e.disposed != 1 ) { r.fail( "C06:disposer", "the item with value " + std::to_string( e.v ) + " was disposed " + std::to_string( *e.disposed ) + " times by the time the queue and its reclamation scheme are destroyed" ); return; }
+    }
+    FifoSpec spec() const { return FifoSpec(); }
+};
+#endif
 
 #if FAMILY == 4
 struct rw_tr: public cc::rwqueue::traits { typedef cds_verif::mutex lock_type; };
@@ -170,6 +255,32 @@ int main( int argc, char** argv )
         add_family<oq_hp, HpHolder<oq_hp::c_nHazardPtrCount + 1>>( "OptimisticQueue", 1 );
         add_family<oq_dhp, DhpHolder>( "OptimisticQueue", 3, 2, 3, 2, 2, 1 );
         add_family<oq_hp_cnt_sc, HpHolder<oq_hp::c_nHazardPtrCount + 1>>( "OptimisticQueue-counter-seqcst", 3 );
+    }
+#elif FAMILY == 5
+    {
+        namespace ci = cds::intrusive;
+        typedef QItem< ci::msqueue::node<cds::gc::HP> > ms_item;
+        struct ms_tr: public ci::msqueue::traits { typedef ci::msqueue::base_hook< cds::opt::gc<cds::gc::HP> > hook; typedef iq_disposer disposer; typedef cds::atomicity::item_counter item_counter; };
+        typedef ci::MSQueue<cds::gc::HP, ms_item, ms_tr> ims;
+        typedef ci::MoirQueue<cds::gc::HP, ms_item, ms_tr> imoir;
+        typedef QItem< ci::msqueue::node<cds::gc::DHP> > ms_item_d;
+        struct ms_tr_d: public ci::msqueue::traits { typedef ci::msqueue::base_hook< cds::opt::gc<cds::gc::DHP> > hook; typedef iq_disposer disposer; };
+        typedef ci::MSQueue<cds::gc::DHP, ms_item_d, ms_tr_d> ims_d;
+        typedef QItem< ci::basket_queue::node<cds::gc::HP> > bq_item;
+        struct bq_tr: public ci::basket_queue::traits { typedef ci::basket_queue::base_hook< cds::opt::gc<cds::gc::HP> > hook; typedef iq_disposer disposer; };
+        typedef ci::BasketQueue<cds::gc::HP, bq_item, bq_tr> ibq;
+        typedef QItem< ci::optimistic_queue::node<cds::gc::DHP> > oq_item;
+        struct oq_tr: public ci::optimistic_queue::traits { typedef ci::optimistic_queue::base_hook< cds::opt::gc<cds::gc::DHP> > hook; typedef iq_disposer disposer; };
+        typedef ci::OptimisticQueue<cds::gc::DHP, oq_item, oq_tr> ioq;
+        typedef QItem< boost::intrusive::list_base_hook<> > fc_item;
+        struct ifc_tr: public ci::fcqueue::traits { typedef iq_disposer disposer; };
+        typedef ci::FCQueue<fc_item, boost::intrusive::list<fc_item>, ifc_tr> ifc;
+        add_family_ad<IQueueAdapter<ims, HpHolder<ims::c_nHazardPtrCount + 1>>, HpHolder<ims::c_nHazardPtrCount + 1>>( "intrusive-MSQueue-counter", 2 );
+        add_family_ad<IQueueAdapter<imoir, HpHolder<imoir::c_nHazardPtrCount + 1>>, HpHolder<imoir::c_nHazardPtrCount + 1>>( "intrusive-MoirQueue", 3 );
+        add_family_ad<IQueueAdapter<ims_d, DhpHolder>, DhpHolder>( "intrusive-MSQueue", 3 );
+        add_family_ad<IQueueAdapter<ibq, HpHolder<ibq::c_nHazardPtrCount + 1>>, HpHolder<ibq::c_nHazardPtrCount + 1>>( "intrusive-BasketQueue", 2 );
+        add_family_ad<IQueueAdapter<ioq, DhpHolder>, DhpHolder>( "intrusive-OptimisticQueue", 2 );
+        add_family_ad<IQueueAdapter<ifc, NoSmr, true>, NoSmr>( "intrusive-FCQueue", 1, 1, 2, 1, 2 );
     }
 #elif FAMILY == 4
     {
